@@ -544,16 +544,16 @@ pub fn exhaustive(rng: &mut Rng, nv: u32, maxf: usize, slice: usize, nslices: us
 
 pub fn run(rng: &mut Rng, n: usize, slice: usize, nslices: usize, thorough: bool) {
     if thorough {
-        exhaustive(rng, 4, 4, slice, nslices);
-        exhaustive(rng, 5, 3, slice, nslices);
+        case("topo.case", "c12.library_call_panics", || exhaustive(rng, 4, 4, slice, nslices));
+        case("topo.case", "c12.library_call_panics", || exhaustive(rng, 5, 3, slice, nslices));
     } else {
-        exhaustive(rng, 4, 3, slice, nslices);
+        case("topo.case", "c12.library_call_panics", || exhaustive(rng, 4, 3, slice, nslices));
     }
     for _ in 0..n {
         let (faces, nv) = random_mesh(rng);
-        check_mesh(&faces, nv, rng, 4);
-        voxels(rng);
-        chains(rng);
-        generators(rng);
+        case("topo.case", "c12.library_call_panics", || check_mesh(&faces, nv, rng, 4));
+        case("topo.case", "c12.library_call_panics", || voxels(rng));
+        case("topo.case", "c12.library_call_panics", || chains(rng));
+        case("topo.case", "c12.library_call_panics", || generators(rng));
     }
 }
